@@ -73,6 +73,11 @@ def gen_cases(tier, seed):
             elif cls == "deep-link":
                 spec.append({"p": "out/od/inner/lk%d" % j, "k": "l", "target": "../../x"})   # a link inside a linked directory
                 spec.append({"p": nm, "k": "l", "target": up + "../out/od"})
+                # decoys: what '../../x' would designate if '..' were taken from the path walked (src/L/inner/..) instead of from
+                # the directory the link really lives in (out/od/inner/..)
+                for dp in ("src/x", "src/sub/x"):
+                    if not any(e["p"] == dp for e in spec):
+                        spec.append(F(dp, 33, r.randrange(1, 1 << 30)))
             elif cls == "chain":
                 ln = r.choice([1, 2, 3, 8, 38]) if tier == "thorough" or r.random() < 0.3 else r.choice([1, 2, 3, 8])
                 maxchain = max(maxchain, ln)
